@@ -359,6 +359,27 @@ fn write_evidence(prop: &str, sp: &Spec, tier: &str, seed: u64, t: &WorkerReport
         for k in t.site_counts.keys().filter(|k| k.starts_with("probe:")) {
             m.insert(k["probe:".len()..].to_string(), serde_json::json!(g(k)));
         }
+        // held->acquired lock graph over all executions (reported, not judged: a cycle under a
+        // common outer lock is benign; only a realised deadlock is a C15 violation)
+        let edges: Vec<(String, String)> = t
+            .site_counts
+            .keys()
+            .filter_map(|k| k.strip_prefix("lock-edge:"))
+            .filter_map(|e| e.split_once("->"))
+            // lock ids restart per open: fold "state#3" to "state"
+            .map(|(a, b)| (a.split('#').next().unwrap_or(a).to_string(), b.split('#').next().unwrap_or(b).to_string()))
+            .collect::<BTreeSet<_>>()
+            .into_iter()
+            .collect();
+        let mut cyc = Vec::new();
+        for (a, b) in &edges {
+            if a != b && edges.iter().any(|(x, y)| x == b && y == a) && a < b {
+                cyc.push(format!("{a}<->{b}"));
+            }
+        }
+        m.insert("lock-graph-edges".into(), serde_json::json!(edges.len()));
+        m.insert(format!("lock-graph: {}", edges.iter().map(|(a, b)| format!("{a}->{b}")).collect::<Vec<_>>().join(", ")), serde_json::json!(1));
+        m.insert(format!("lock-graph-2-cycles: [{}]", cyc.join(", ")), serde_json::json!(cyc.len().max(1)));
         probes = serde_json::Value::Object(m);
     }
     let zero: Vec<&String> = probes.as_object().unwrap().iter().filter(|(_, v)| v.as_u64() == Some(0)).map(|(k, _)| k).collect();
